@@ -5,6 +5,7 @@ mod streams;
 mod oracle;
 mod refimpl;
 mod cli;
+mod comp;
 mod allocs;
 
 #[global_allocator]
@@ -64,6 +65,7 @@ fn run_cmd(cmd: &str, opt: &HashMap<String, String>) -> i32 {
         "capi" => streams::stream_capi(&opt),
         "cost" => streams::stream_cost(&opt),
         "alloc" => allocs::stream_alloc(&opt),
+        "comp" => comp::stream_comp(&opt),
         "oracle" => oracle::run(&opt),
         "cliexpect" => cli::run(&opt),
         _ => { eprintln!("unknown command {}", cmd); 2 }
